@@ -308,58 +308,167 @@ func wirFill(v reflect.Value, rng *rand.Rand, dense float64, depth int) {
 	}
 }
 
-// TimePeriodType has custom JSON exactly when StartTime is nil and EndTime parses as a duration or
-// a time. Strings starting with "x" parse as neither.
+// ---- TimePeriodType: the one type with its own JSON. Its (un)marshaler looks at the SHAPE of the
+// period: which of start / end are present and whether the end parses as a duration or a date-time.
+// The generator produces every shape {none, absolute, relative, unparsable} x {…}; the classifier
+// below is the harness's own (it does not call the repository's parsers).
+
+type wirTV struct {
+	kind byte    // '-' absent, 'j' unparsable, 'r' duration, 'a' date-time
+	secs float64 // duration in seconds / unix time
+	raw  string
+}
+
+func (t wirTV) tok() string {
+	switch t.kind {
+	case 'r', 'a':
+		return fmt.Sprintf("%c%d", t.kind, int64(math.Round(t.secs)))
+	}
+	return string(t.kind)
+}
+
+// wirParseDur: ISO-8601 duration with optional sign, weeks, days, hours, minutes, (fractional) seconds.
+func wirParseDur(s string) (float64, bool) {
+	neg := false
+	if strings.HasPrefix(s, "-") {
+		neg, s = true, s[1:]
+	} else if strings.HasPrefix(s, "+") {
+		s = s[1:]
+	}
+	if !strings.HasPrefix(s, "P") || len(s) < 3 {
+		return 0, false
+	}
+	s = s[1:]
+	total, inTime, seen := 0.0, false, false
+	for len(s) > 0 {
+		if s[0] == 'T' {
+			if inTime {
+				return 0, false
+			}
+			inTime, s = true, s[1:]
+			continue
+		}
+		j := 0
+		for j < len(s) && (s[j] >= '0' && s[j] <= '9' || s[j] == '.') {
+			j++
+		}
+		if j == 0 || j == len(s) {
+			return 0, false
+		}
+		n, err := strconv.ParseFloat(s[:j], 64)
+		if err != nil {
+			return 0, false
+		}
+		var unit float64
+		switch {
+		case s[j] == 'W' && !inTime:
+			unit = 7 * 86400
+		case s[j] == 'D' && !inTime:
+			unit = 86400
+		case s[j] == 'H' && inTime:
+			unit = 3600
+		case s[j] == 'M' && inTime:
+			unit = 60
+		case s[j] == 'S' && inTime:
+			unit = 1
+		default:
+			return 0, false // years and months are never generated
+		}
+		total += n * unit
+		seen = true
+		s = s[j+1:]
+	}
+	if !seen {
+		return 0, false
+	}
+	if neg {
+		total = -total
+	}
+	return total, true
+}
+
+func wirParseAbs(s string) (time.Time, bool) {
+	for _, l := range []string{"2006-01-02T15:04:05Z", "2006-01-02T15:04:05.999999999Z", "2006-01-02T15:04:05", "2006-01-02T15:04:05.999999999"} {
+		if t, err := time.ParseInLocation(l, s, time.UTC); err == nil {
+			return t, true
+		}
+	}
+	return time.Time{}, false
+}
+
+func wirClassifyStr(s *string) wirTV {
+	if s == nil {
+		return wirTV{kind: '-'}
+	}
+	if d, ok := wirParseDur(*s); ok {
+		return wirTV{kind: 'r', secs: d, raw: *s}
+	}
+	if t, ok := wirParseAbs(*s); ok {
+		return wirTV{kind: 'a', secs: float64(t.UnixNano()) / 1e9, raw: *s}
+	}
+	return wirTV{kind: 'j', raw: *s}
+}
+
+func wirClassify(a *model.AbsoluteOrRelativeTimeType) wirTV {
+	if a == nil {
+		return wirTV{kind: '-'}
+	}
+	s := string(*a)
+	return wirClassifyStr(&s)
+}
+
+// wirBase: the clock reading all generated date-times are offsets of (one per process, so that the same
+// seed yields the same strings within a run).
+var wirBase = time.Now().UTC().Truncate(time.Second)
+
+// wirTimeString makes a time string of the given class: "-" none, "x" unparsable, "a" date-time,
+// "r" duration; off (seconds, may be negative) is the offset from now resp. the duration.
+func wirTimeString(kind byte, off int64, form int) *model.AbsoluteOrRelativeTimeType {
+	var s string
+	switch kind {
+	case '-':
+		return nil
+	case 'x':
+		s = fmt.Sprintf("x%d", off)
+	case 'a':
+		s = wirBase.Add(time.Duration(off) * time.Second).Format("2006-01-02T15:04:05Z")
+	case 'r':
+		sign := ""
+		if off < 0 {
+			sign, off = "-", -off
+		}
+		switch form % 4 {
+		case 0:
+			s = fmt.Sprintf("%sPT%dS", sign, off)
+		case 1:
+			s = fmt.Sprintf("%sPT%dH%dM%dS", sign, off/3600, off%3600/60, off%60)
+		case 2:
+			s = fmt.Sprintf("%sP%dDT%dH%dS", sign, off/86400, off%86400/3600, off%3600)
+		case 3:
+			s = fmt.Sprintf("%sPT%dM", sign, off/60+1)
+		}
+	}
+	v := model.AbsoluteOrRelativeTimeType(s)
+	return &v
+}
+
+func wirRandOffset(rng *rand.Rand) int64 {
+	off := int64(1 + rng.Intn(40*86400)) // up to 40 days: far below the 3277-day bound of C19
+	if rng.Intn(3) == 0 {
+		off = int64(1 + rng.Intn(7200))
+	}
+	if rng.Intn(4) == 0 {
+		off = -off // in the past
+	}
+	return off
+}
+
+// wirFillTimePeriod: all 16 shapes {none, absolute, relative, unparsable} x {…}, uniformly.
 func wirFillTimePeriod(v reflect.Value, rng *rand.Rand) {
 	tp := v.Addr().Interface().(*model.TimePeriodType)
-	plain := func() *model.AbsoluteOrRelativeTimeType {
-		s := model.AbsoluteOrRelativeTimeType("x" + wirString(rng))
-		return &s
-	}
-	switch rng.Intn(6) {
-	case 0: // both absent
-	case 1: // start only
-		tp.StartTime = plain()
-	case 2: // both: no custom path
-		tp.StartTime, tp.EndTime = plain(), plain()
-	case 3: // end only, unparseable: no custom path
-		tp.EndTime = plain()
-	case 4: // end only, relative: re-expressed as absolute by UnmarshalJSON
-		s := model.AbsoluteOrRelativeTimeType(fmt.Sprintf("PT%dS", 1+rng.Intn(50000)))
-		tp.EndTime = &s
-	case 5: // end only, absolute: re-expressed as relative by MarshalJSON and back
-		s := model.AbsoluteOrRelativeTimeType(time.Now().UTC().Add(time.Duration(60+rng.Intn(50000)) * time.Second).Format("2006-01-02T15:04:05Z"))
-		tp.EndTime = &s
-	}
-}
-
-func wirCustomPeriod(tp *model.TimePeriodType) bool {
-	return tp.StartTime == nil && tp.EndTime != nil && !strings.HasPrefix(string(*tp.EndTime), "x")
-}
-
-// wirHasCustom: does the value contain a TimePeriodType on the custom JSON path?
-func wirHasCustom(v reflect.Value) bool {
-	switch v.Kind() {
-	case reflect.Ptr:
-		return !v.IsNil() && wirHasCustom(v.Elem())
-	case reflect.Slice:
-		for i := 0; i < v.Len(); i++ {
-			if wirHasCustom(v.Index(i)) {
-				return true
-			}
-		}
-	case reflect.Struct:
-		if v.Type() == wirTimePeriodT {
-			tp := v.Interface().(model.TimePeriodType)
-			return wirCustomPeriod(&tp)
-		}
-		for i := 0; i < v.NumField(); i++ {
-			if wirHasCustom(v.Field(i)) {
-				return true
-			}
-		}
-	}
-	return false
+	kinds := []byte{'-', 'a', 'r', 'x'}
+	tp.StartTime = wirTimeString(kinds[rng.Intn(4)], wirRandOffset(rng), rng.Intn(4))
+	tp.EndTime = wirTimeString(kinds[rng.Intn(4)], wirRandOffset(rng), rng.Intn(4))
 }
 
 // wirHasEmptyList: does the value contain an empty, non-nil slice?
@@ -386,68 +495,177 @@ func wirHasEmptyList(v reflect.Value) bool {
 	return false
 }
 
-// wirInstant: the instant an end time written by the generator or by the code denotes.
-func wirInstant(s string, now time.Time) (time.Time, bool) {
-	if strings.HasPrefix(s, "PT") && strings.HasSuffix(s, "S") && !strings.ContainsAny(s[2:len(s)-1], "HM") {
-		if f, err := strconv.ParseFloat(s[2:len(s)-1], 64); err == nil {
-			return now.Add(time.Duration(f * float64(time.Second))), true
-		}
+// wirStrEq: both absent or both the identical string
+func wirStrEq(a, b *model.AbsoluteOrRelativeTimeType) bool {
+	if a == nil || b == nil {
+		return a == nil && b == nil
 	}
-	if t, err := time.Parse(time.RFC3339, s); err == nil {
-		return t, true
-	}
-	return time.Time{}, false
+	return *a == *b
 }
 
-// wirEquiv is the SPEC's equivalence: equal up to (i) absent versus empty lists and (ii) a time
-// period without start whose end time denotes the same instant (± tol).
-func wirEquiv(a, b reflect.Value, now time.Time) bool {
+// wirPeriodDiff is the SPEC for one time period (x before, y after the JSON round trip started at
+// now): ONLY an end-only period whose end time is a duration or a date-time may come back changed —
+// a duration re-anchored against the current time (now + d, as date-time or still as duration), a
+// date-time as the same instant; both within the second rounding plus the time that has passed.
+// Every other shape must come back as the identical strings. "" = fine.
+func wirPeriodDiff(x, y model.TimePeriodType, now time.Time) string {
+	sx, ex := wirClassify(x.StartTime), wirClassify(x.EndTime)
+	shape := fmt.Sprintf("time-period:start=%c,end=%c", sx.kind, ex.kind)
+	if sx.kind == '-' && (ex.kind == 'r' || ex.kind == 'a') {
+		ey := wirClassify(y.EndTime)
+		if y.StartTime != nil {
+			return shape
+		}
+		tol := 2.0 + time.Since(now).Seconds()
+		n := float64(now.UnixNano()) / 1e9
+		want := ex.secs // instant
+		if ex.kind == 'r' {
+			want = n + ex.secs
+		}
+		var got float64
+		switch {
+		case ey.kind == 'a':
+			got = ey.secs
+		case ey.kind == 'r' && ex.kind == 'r':
+			got = n + ey.secs
+		default:
+			return shape
+		}
+		if math.Abs(got-want) > tol {
+			return shape
+		}
+		return ""
+	}
+	if !wirStrEq(x.StartTime, y.StartTime) || !wirStrEq(x.EndTime, y.EndTime) {
+		return shape
+	}
+	return ""
+}
+
+// wirDiff is the SPEC's equivalence of a value before (a) and after (b) the round trip: equal up to
+// (i) absent versus empty lists and (ii) wirPeriodDiff for time periods. "" = equivalent, otherwise
+// a short reason ("time-period:<shape>" or the path of the first difference).
+func wirDiff(a, b reflect.Value, now time.Time) string {
 	if a.Type() != b.Type() {
-		return false
+		return "type"
 	}
 	switch a.Kind() {
 	case reflect.Ptr:
 		if a.IsNil() || b.IsNil() {
-			return a.IsNil() && b.IsNil()
+			if a.IsNil() && b.IsNil() {
+				return ""
+			}
+			return "nil-ness of " + a.Type().Elem().Name()
 		}
-		return wirEquiv(a.Elem(), b.Elem(), now)
+		return wirDiff(a.Elem(), b.Elem(), now)
 	case reflect.Slice:
 		if a.Len() != b.Len() {
-			return false
+			return "length of []" + a.Type().Elem().Name()
 		}
 		for i := 0; i < a.Len(); i++ {
-			if !wirEquiv(a.Index(i), b.Index(i), now) {
-				return false
+			if w := wirDiff(a.Index(i), b.Index(i), now); w != "" {
+				return w
 			}
 		}
-		return true
+		return ""
 	case reflect.Struct:
 		if a.Type() == wirTimePeriodT {
-			x, y := a.Interface().(model.TimePeriodType), b.Interface().(model.TimePeriodType)
-			if wirCustomPeriod(&x) && y.StartTime == nil && y.EndTime != nil {
-				ix, ok1 := wirInstant(string(*x.EndTime), now)
-				iy, ok2 := wirInstant(string(*y.EndTime), now)
-				if ok1 && ok2 {
-					d := ix.Sub(iy)
-					return d > -5*time.Second && d < 5*time.Second
-				}
-				return false
-			}
+			return wirPeriodDiff(a.Interface().(model.TimePeriodType), b.Interface().(model.TimePeriodType), now)
 		}
 		for i := 0; i < a.NumField(); i++ {
-			if !wirEquiv(a.Field(i), b.Field(i), now) {
-				return false
+			if w := wirDiff(a.Field(i), b.Field(i), now); w != "" {
+				if strings.HasPrefix(w, "time-period:") {
+					return w
+				}
+				return a.Type().Name() + "." + a.Type().Field(i).Name + " " + w
 			}
 		}
-		return true
+		return ""
 	default:
-		return a.Interface() == b.Interface()
+		if a.Interface() == b.Interface() {
+			return ""
+		}
+		return "value"
 	}
+}
+
+func wirEquiv(a, b reflect.Value, now time.Time) bool { return wirDiff(a, b, now) == "" }
+
+// wirTPObs: one TimePeriodType inside a value, with the JSON object it was written as / read from.
+type wirTPObs struct {
+	val model.TimePeriodType
+	jm  map[string]any
+}
+
+// wirCollectTP walks a value and its JSON tree side by side (depth first, field order) and collects
+// every TimePeriodType.
+func wirCollectTP(v reflect.Value, j any, out *[]wirTPObs) {
+	switch v.Kind() {
+	case reflect.Ptr:
+		if !v.IsNil() {
+			wirCollectTP(v.Elem(), j, out)
+		}
+	case reflect.Slice:
+		arr, _ := j.([]any)
+		for i := 0; i < v.Len(); i++ {
+			var c any
+			if i < len(arr) {
+				c = arr[i]
+			}
+			wirCollectTP(v.Index(i), c, out)
+		}
+	case reflect.Struct:
+		jm, _ := j.(map[string]any)
+		if v.Type() == wirTimePeriodT {
+			*out = append(*out, wirTPObs{val: v.Interface().(model.TimePeriodType), jm: jm})
+			return
+		}
+		for i := 0; i < v.NumField(); i++ {
+			name := strings.Split(v.Type().Field(i).Tag.Get("json"), ",")[0]
+			var c any
+			if jm != nil {
+				c = jm[name]
+			}
+			wirCollectTP(v.Field(i), c, out)
+		}
+	}
+}
+
+func wirJStr(jm map[string]any, key string) *string {
+	if jm == nil {
+		return nil
+	}
+	if s, ok := jm[key].(string); ok {
+		return &s
+	}
+	return nil
+}
+
+// wirTokMatch: does the observed class agree with the model's token (numbers within tol seconds)?
+func wirTokMatch(tok string, t wirTV, tol float64) bool {
+	if len(tok) == 0 || tok[0] != t.kind {
+		return false
+	}
+	if t.kind == 'r' || t.kind == 'a' {
+		n, err := strconv.ParseInt(tok[1:], 10, 64)
+		return err == nil && math.Abs(float64(n)-t.secs) <= tol
+	}
+	return true
 }
 
 // ---------------------------------------------------------------- prefix notation shared with the Lean drivers
 
-func wirShowV(v reflect.Value, b *strings.Builder) {
+// wirShower writes a value in prefix notation. subst (by ordinal of the TimePeriodType in depth-first
+// order, as wirCollectTP counts them) replaces the end time of a period by the given string: used where
+// the time-period model predicts a re-expression, so that everything else is compared exactly.
+type wirShower struct {
+	b     strings.Builder
+	ntp   int
+	subst map[int]string
+}
+
+func (w *wirShower) show(v reflect.Value) {
+	b := &w.b
 	switch v.Kind() {
 	case reflect.Ptr:
 		if v.IsNil() {
@@ -455,7 +673,7 @@ func wirShowV(v reflect.Value, b *strings.Builder) {
 			return
 		}
 		b.WriteString(" P")
-		wirShowV(v.Elem(), b)
+		w.show(v.Elem())
 	case reflect.Slice:
 		if v.IsNil() {
 			b.WriteString(" n")
@@ -463,12 +681,22 @@ func wirShowV(v reflect.Value, b *strings.Builder) {
 		}
 		fmt.Fprintf(b, " L%d", v.Len())
 		for i := 0; i < v.Len(); i++ {
-			wirShowV(v.Index(i), b)
+			w.show(v.Index(i))
 		}
 	case reflect.Struct:
+		if v.Type() == wirTimePeriodT {
+			idx := w.ntp
+			w.ntp++
+			if e, ok := w.subst[idx]; ok {
+				b.WriteString(" R2")
+				w.show(v.Field(0))
+				b.WriteString(" P S" + hex.EncodeToString([]byte(e)))
+				return
+			}
+		}
 		fmt.Fprintf(b, " R%d", v.NumField())
 		for i := 0; i < v.NumField(); i++ {
-			wirShowV(v.Field(i), b)
+			w.show(v.Field(i))
 		}
 	case reflect.String:
 		b.WriteString(" S" + hex.EncodeToString([]byte(v.String())))
@@ -483,15 +711,17 @@ func wirShowV(v reflect.Value, b *strings.Builder) {
 	case reflect.Int, reflect.Int8, reflect.Int16, reflect.Int32, reflect.Int64:
 		b.WriteString(" N" + strconv.FormatInt(v.Int(), 10))
 	default:
-		panic("wirShowV: unsupported kind " + v.Kind().String())
+		panic("wirShower: unsupported kind " + v.Kind().String())
 	}
 }
 
-func wirV(v reflect.Value) string {
-	var b strings.Builder
-	wirShowV(v, &b)
-	return strings.TrimSpace(b.String())
+func wirVS(v reflect.Value, subst map[int]string) string {
+	w := &wirShower{subst: subst}
+	w.show(v)
+	return strings.TrimSpace(w.b.String())
 }
+
+func wirV(v reflect.Value) string { return wirVS(v, nil) }
 
 // wirJ turns JSON text into the prefix notation of a JSON tree, through encoding/json's tokenizer
 // (keys in the order of the text, numbers verbatim).
@@ -859,10 +1089,15 @@ func wirCmdOp(r *h.Report, fns map[string]*wirFn, op string) (impl string, kind 
 		r.SpecFail("C18/cmd-tag:"+f.name, ops, fmt.Sprintf("%s %s: after the round trip the command is recognised as function %s (json %s)", f.name, sh, got, text))
 	case reflect.TypeOf(cd.Value) != reflect.PointerTo(f.payload):
 		r.SpecFail("C18/cmd-type:"+f.name, ops, fmt.Sprintf("%s %s: payload recognised with type %v, registered type %v", f.name, sh, reflect.TypeOf(cd.Value), f.payload))
-	case !wirEquiv(reflect.ValueOf(cd.Value), reflect.ValueOf(want), now):
-		g, _ := json.Marshal(cd.Value)
-		w, _ := json.Marshal(want)
-		r.SpecFail("C18/payload-changed:"+f.payload.Name(), ops, fmt.Sprintf("%s %s: payload %s came back as %s", f.name, sh, w, g))
+	case wirDiff(reflect.ValueOf(want), reflect.ValueOf(cd.Value), now) != "":
+		why := wirDiff(reflect.ValueOf(want), reflect.ValueOf(cd.Value), now)
+		g, _ := json.Marshal(wirPlain(reflect.ValueOf(cd.Value)))
+		w, _ := json.Marshal(wirPlain(reflect.ValueOf(want)))
+		key := "C18/payload-changed:" + f.payload.Name()
+		if strings.HasPrefix(why, "time-period:") {
+			key = "C18/" + why
+		}
+		r.SpecFail(key, ops, fmt.Sprintf("%s %s: payload %s came back as %s (%s); json %s", f.name, sh, w, g, why, text))
 	}
 	wantPartial := sh == "readSel" || sh == "readEl" || sh == "readSelEl" || sh == "replyPartial" || sh == "part" || sh == "partSel" || sh == "delSelPartSel"
 	wantDelete := wirUsesDelete(sh)
@@ -881,16 +1116,28 @@ func wirCmdOp(r *h.Report, fns map[string]*wirFn, op string) (impl string, kind 
 			r.SpecFail("C18/"+key, ops, fmt.Sprintf("%s %s: the %s filter names function %q after the round trip", f.name, sh, which, fr.function))
 			return
 		}
-		if (wantSel == nil) != (fr.sel == nil || reflect.ValueOf(fr.sel).IsNil()) || (wantSel != nil && !(reflect.TypeOf(fr.sel) == reflect.TypeOf(wantSel) && wirEquiv(reflect.ValueOf(fr.sel), reflect.ValueOf(wantSel), now))) {
-			w, _ := json.Marshal(wantSel)
-			g, _ := json.Marshal(fr.sel)
-			r.SpecFail("C18/"+f.selKey, ops, fmt.Sprintf("%s %s: selectors %s put into the %s filter came back as %s (%T); json %s", f.name, sh, w, which, g, fr.sel, text))
+		one := func(what, key, fld string, want, got any) {
+			gotNil := got == nil || reflect.ValueOf(got).IsNil()
+			w, _ := json.Marshal(wirPlain(reflect.ValueOf(want)))
+			g, _ := json.Marshal(wirPlain(reflect.ValueOf(got)))
+			if want == nil && gotNil {
+				return
+			}
+			if (want == nil) != gotNil || reflect.TypeOf(got) != reflect.TypeOf(want) {
+				// dropped, invented or of another type: the tag row of the function
+				r.SpecFail("C18/"+key, ops, fmt.Sprintf("%s %s: %s %s put into the %s filter came back as %s (%T); json %s", f.name, sh, what, w, which, g, got, text))
+				return
+			}
+			if why := wirDiff(reflect.ValueOf(want), reflect.ValueOf(got), now); why != "" {
+				k := "C18/filter-value:" + fld
+				if strings.HasPrefix(why, "time-period:") {
+					k = "C18/" + why
+				}
+				r.SpecFail(k, ops, fmt.Sprintf("%s %s: %s %s put into the %s filter came back as %s (%s); json %s", f.name, sh, what, w, which, g, why, text))
+			}
 		}
-		if (wantEl == nil) != (fr.el == nil || reflect.ValueOf(fr.el).IsNil()) || (wantEl != nil && !(reflect.TypeOf(fr.el) == reflect.TypeOf(wantEl) && wirEquiv(reflect.ValueOf(fr.el), reflect.ValueOf(wantEl), now))) {
-			w, _ := json.Marshal(wantEl)
-			g, _ := json.Marshal(fr.el)
-			r.SpecFail("C18/"+f.elKey, ops, fmt.Sprintf("%s %s: elements %s put into the %s filter came back as %s (%T); json %s", f.name, sh, w, which, g, fr.el, text))
-		}
+		one("selectors", f.selKey, f.selFld, wantSel, fr.sel)
+		one("elements", f.elKey, f.elFld, wantEl, fr.el)
 	}
 	switch sh {
 	case "readSel", "partSel":
@@ -1035,18 +1282,50 @@ func TestWireCmd(t *testing.T) {
 
 // ---------------------------------------------------------------- TestWireJson
 
+// wirPeriodValue builds the value of a "period" op: a TimePeriodType of the given shape, bare or nested
+// in a payload (loadControlLimitListData.timePeriod). Tokens: - | x | a<±secs from now> | r<±secs>.
+func wirPeriodValue(container, st, en string) reflect.Value {
+	mk := func(tok string) *model.AbsoluteOrRelativeTimeType {
+		if tok == "-" {
+			return nil
+		}
+		off, _ := strconv.ParseInt(tok[1:], 10, 64)
+		return wirTimeString(tok[0], off, int(off)%4)
+	}
+	tp := &model.TimePeriodType{StartTime: mk(st), EndTime: mk(en)}
+	if container == "bare" {
+		return reflect.ValueOf(tp)
+	}
+	id := model.LoadControlLimitIdType(1)
+	return reflect.ValueOf(&model.LoadControlLimitListDataType{LoadControlLimitData: []model.LoadControlLimitDataType{{LimitId: &id, TimePeriod: tp}}})
+}
+
+// wirJsonOp executes "json <GoType> <seed> <density>" (a random value) or "period <bare|nested> <start> <end>".
 func wirJsonOp(r *h.Report, d *h.Driver, types map[string]reflect.Type, op string) (kind string, ok bool) {
 	fl := strings.Fields(op)
-	t := types[fl[1]]
-	seed, _ := strconv.ParseInt(fl[2], 10, 64)
-	dense, _ := strconv.ParseFloat(fl[3], 64)
-	if t == nil {
-		panic("unknown type in op " + op)
+	var p reflect.Value
+	switch fl[0] {
+	case "json":
+		t := types[fl[1]]
+		seed, _ := strconv.ParseInt(fl[2], 10, 64)
+		dense, _ := strconv.ParseFloat(fl[3], 64)
+		if t == nil {
+			panic("unknown type in op " + op)
+		}
+		p = reflect.New(t)
+		wirFill(p.Elem(), rand.New(rand.NewSource(seed)), dense, 0)
+	case "period":
+		p = wirPeriodValue(fl[1], fl[2], fl[3])
+	default:
+		panic("bad op " + op)
 	}
-	ops := []string{op}
-	rng := rand.New(rand.NewSource(seed))
-	p := reflect.New(t)
-	wirFill(p.Elem(), rng, dense, 0)
+	return wirJsonCheck(r, d, []string{op}, p)
+}
+
+// wirJsonCheck: p (pointer to the value) through encoding/json and back; SPEC monitor; correspondence
+// with Spine.Json (every field) and Spine.PeriodJson (every TimePeriodType inside).
+func wirJsonCheck(r *h.Report, d *h.Driver, ops []string, p reflect.Value) (kind string, ok bool) {
+	t := p.Type().Elem()
 	now := time.Now()
 	text, err := json.Marshal(p.Interface())
 	if err != nil {
@@ -1054,45 +1333,107 @@ func wirJsonOp(r *h.Report, d *h.Driver, types map[string]reflect.Type, op strin
 		return "error", false
 	}
 	q := reflect.New(t)
+	now2 := time.Now()
 	if err := json.Unmarshal(text, q.Interface()); err != nil {
 		r.SpecFail("C18/json-roundtrip:"+t.Name(), ops, fmt.Sprintf("encoding/json cannot decode its own output %s: %v", text, err))
 		return "error", false
 	}
-	// SPEC: decode(encode v) is equivalent to v
-	if !wirEquiv(p, q, now) {
+	// SPEC: decode(encode v) is equivalent to v (model-free)
+	if why := wirDiff(p, q, now); why != "" {
 		g, _ := json.Marshal(q.Interface())
-		r.SpecFail("C18/json-roundtrip:"+t.Name(), ops, fmt.Sprintf("value %s decodes as %s", text, g))
+		o, _ := json.Marshal(wirPlain(p))
+		key := "C18/json-roundtrip:" + t.Name()
+		if strings.HasPrefix(why, "time-period:") {
+			key = "C18/" + why
+		}
+		r.SpecFail(key, ops, fmt.Sprintf("%s: value %s is written as %s and decodes as %s (%s)", t.Name(), o, text, g, why))
 	}
-	custom := wirHasCustom(p.Elem())
-	if custom {
-		// TimePeriodType's own MarshalJSON re-expresses the end time: outside Spine.Json (C19)
-		return "custom-json", true
+	// ---- correspondence, part 1: every TimePeriodType inside, against Spine.PeriodJson
+	var jt any
+	jd := json.NewDecoder(bytes.NewReader(text))
+	jd.UseNumber()
+	if err := jd.Decode(&jt); err != nil {
+		r.Mismatch(ops, "unparsable json "+err.Error(), "", string(text))
+		return "error", false
 	}
-	// correspondence with Spine.Json: same JSON tree, same decoded value
+	var tpP, tpQ []wirTPObs
+	wirCollectTP(p.Elem(), jt, &tpP)
+	wirCollectTP(q.Elem(), jt, &tpQ)
+	if len(tpP) != len(tpQ) {
+		r.Mismatch(ops, fmt.Sprintf("%d time periods decoded", len(tpQ)), fmt.Sprintf("%d time periods encoded", len(tpP)), string(text))
+		return "error", false
+	}
+	substP, substQ := map[int]string{}, map[int]string{}
+	tol := 1.5 + time.Since(now).Seconds()
+	for i := range tpP {
+		os, oe := wirClassify(tpP[i].val.StartTime), wirClassify(tpP[i].val.EndTime)
+		ts, te := wirClassifyStr(wirJStr(tpP[i].jm, "startTime")), wirClassifyStr(wirJStr(tpP[i].jm, "endTime"))
+		qs, qe := wirClassify(tpQ[i].val.StartTime), wirClassify(tpQ[i].val.EndTime)
+		r.Dist[fmt.Sprintf("period start=%c end=%c", os.kind, oe.kind)]++
+		if t != wirTimePeriodT {
+			r.Dist["period nested in a payload"]++
+		}
+		ans := strings.Fields(d.Ask(fmt.Sprintf("tp %d %d %s %s", now.Unix(), now2.Unix(), os.tok(), oe.tok())))
+		impl := fmt.Sprintf("enc %s %s dec %s %s", ts.tok(), te.tok(), qs.tok(), qe.tok())
+		if len(ans) != 6 {
+			r.Mismatch(ops, impl, strings.Join(ans, " "), "time period: driver answer")
+			return "period", false
+		}
+		good := wirTokMatch(ans[1], ts, tol) && wirTokMatch(ans[2], te, tol) && wirTokMatch(ans[4], qs, tol) && wirTokMatch(ans[5], qe, tol)
+		// where the model predicts "unchanged" the text must be the identical string (a duration of an
+		// end-only period is the exception: it is written in the period library's normal form)
+		endOnlyRel := os.kind == '-' && oe.kind == 'r'
+		if ans[1] == os.tok() && ts.raw != os.raw {
+			good = false
+		}
+		if ans[2] == oe.tok() && !endOnlyRel && te.raw != oe.raw {
+			good = false
+		}
+		if ans[4] == ans[1] && qs.raw != ts.raw {
+			good = false
+		}
+		if ans[5] == ans[2] && qe.raw != te.raw {
+			good = false
+		}
+		if !good {
+			r.Mismatch(ops, impl+fmt.Sprintf(" (start %q end %q written as %q %q decoded as %q %q)", os.raw, oe.raw, ts.raw, te.raw, qs.raw, qe.raw),
+				strings.Join(ans, " "), fmt.Sprintf("TimePeriodType %d of %s: MarshalJSON/UnmarshalJSON versus Spine.PeriodJson (tolerance %.1f s); text %s", i, t.Name(), tol, text))
+			return "period", false
+		}
+		if ans[2] != oe.tok() || endOnlyRel {
+			substP[i] = te.raw // predicted re-expression: take the real string, compare the rest exactly
+		}
+		if ans[5] != ans[2] {
+			substQ[i] = te.raw
+		}
+	}
+	// ---- part 2: the whole value against Spine.Json: same JSON tree, same decoded value
 	implJ, err := wirJ(text)
 	if err != nil {
 		r.Mismatch(ops, "json outside the model: "+err.Error(), "", string(text))
 		return "error", false
 	}
-	modelJ := d.Ask("enc " + t.Name() + " " + wirV(p.Elem()))
+	modelJ := d.Ask("enc " + t.Name() + " " + wirVS(p.Elem(), substP))
 	if implJ != modelJ {
 		r.Mismatch(ops, implJ, modelJ, "encode "+t.Name()+": encoding/json versus Spine.Json.encode; text "+string(text))
 		return "enc", false
 	}
-	implV := wirV(q.Elem())
+	implV := wirVS(q.Elem(), substQ)
 	modelV := d.Ask("dec " + t.Name() + " " + implJ)
 	if implV != modelV {
 		r.Mismatch(ops, implV, modelV, "decode "+t.Name()+": encoding/json versus Spine.Json.decode; text "+string(text))
 		return "dec", false
 	}
 	kind = "plain"
-	if wirHasEmptyList(p.Elem()) {
+	if len(substP) > 0 || len(substQ) > 0 {
+		kind = "with-re-expressed-period"
+	} else if wirHasEmptyList(p.Elem()) {
 		kind = "with-empty-list" // where decode(encode v) differs from v: the list comes back absent
 	} else if bytes.Contains(text, []byte("null")) {
 		kind = "with-null"
 	}
 	if len(text) > 2 {
-		if len(r.Samples) < 6 && len(text) < 400 && seed%7 == 0 {
+		if len(r.Samples) < 6 && len(text) < 400 && len(text)%7 == 0 {
 			r.Sample(t.Name() + " " + string(text))
 		}
 		hs := fnv.New64a()
@@ -1103,8 +1444,45 @@ func wirJsonOp(r *h.Report, d *h.Driver, types map[string]reflect.Type, op strin
 	return kind, true
 }
 
+// wirPlain: a copy of the value in which TimePeriodType is replaced by a struct without methods, so
+// that json.Marshal shows what the value holds rather than what MarshalJSON makes of it (messages only).
+func wirPlain(p reflect.Value) any {
+	var walk func(v reflect.Value) any
+	walk = func(v reflect.Value) any {
+		if !v.IsValid() {
+			return nil
+		}
+		switch v.Kind() {
+		case reflect.Ptr:
+			if v.IsNil() {
+				return nil
+			}
+			return walk(v.Elem())
+		case reflect.Slice:
+			if v.IsNil() {
+				return nil
+			}
+			out := []any{}
+			for i := 0; i < v.Len(); i++ {
+				out = append(out, walk(v.Index(i)))
+			}
+			return out
+		case reflect.Struct:
+			m := map[string]any{}
+			for i := 0; i < v.NumField(); i++ {
+				if x := walk(v.Field(i)); x != nil {
+					m[strings.Split(v.Type().Field(i).Tag.Get("json"), ",")[0]] = x
+				}
+			}
+			return m
+		}
+		return v.Interface()
+	}
+	return walk(p)
+}
+
 func TestWireJson(t *testing.T) {
-	r := h.NewReport("wirejson", "reflectively generated random values (pointer/slice fields nil, empty or filled; strings with quotes, backslashes, HTML and non-ASCII characters; numbers at the bounds of their Go type) of the payload, selectors and elements type of every registered function and of Datagram/HeaderType/CmdType/FilterType: encoded by encoding/json and by Spine.Json.encode over the regenerated schema (compared as JSON trees), decoded by both (compared as values); SPEC: decode(encode v) equals v up to absent/empty lists and TimePeriodType's re-expressed end time; non-trivial = distinct JSON text")
+	r := h.NewReport("wirejson", "reflectively generated random values (pointer/slice fields nil, empty or filled; strings with quotes, backslashes, HTML and non-ASCII characters; numbers at the bounds of their Go type) of the payload, selectors and elements type of every registered function and of Datagram/HeaderType/CmdType/FilterType: encoded by encoding/json and by Spine.Json.encode over the regenerated schema (compared as JSON trees), decoded by both (compared as values); every TimePeriodType inside a value (all 16 shapes {start, end} x {absent, date-time, duration, unparsable}, bare and nested in payloads) compared with Spine.PeriodJson on the wire and after decoding; SPEC: decode(encode v) equals v up to absent/empty lists, and a time period may change ONLY if it has no start and a duration or date-time as end (the duration re-anchored against now, the date-time the same instant, within the second rounding plus elapsed time) - every other shape must come back as the identical strings; non-trivial = distinct JSON text")
 	defer r.Write()
 	completed := wirGuard(r)
 	d := h.StartDriver("drv_json")
@@ -1161,6 +1539,15 @@ func TestWireJson(t *testing.T) {
 			run(op)
 		}
 	}
+	// corpus: every shape of a time period, bare and nested in a payload, future and past
+	toks := []string{"-", "x", "a+14400", "a-86400", "r+18000", "r-86400"}
+	for _, c := range []string{"bare", "nested"} {
+		for _, st := range toks {
+			for _, en := range toks {
+				run(fmt.Sprintf("period %s %s %s", c, st, en))
+			}
+		}
+	}
 	rng := h.Rng(1802)
 	per := h.Scale(200, 3000)
 	for _, n := range names {
@@ -1171,12 +1558,26 @@ func TestWireJson(t *testing.T) {
 	}
 	r.Info["types"] = len(names)
 	r.Info["values per type"] = per
-	cmp := r.Dist["plain"] + r.Dist["with-empty-list"] + r.Dist["with-null"]
-	tot := cmp + r.Dist["custom-json"]
-	r.Floor("values compared with the model", cmp, tot, 0.7)
+	tot := r.Dist["plain"] + r.Dist["with-empty-list"] + r.Dist["with-null"] + r.Dist["with-re-expressed-period"]
+	r.Floor("values compared with the model", tot, r.Evaluations, 0.99)
 	r.Floor("values with an empty list", r.Dist["with-empty-list"], tot, 0.02)
 	r.Floor("values with a null", r.Dist["with-null"], tot, 0.001)
-	r.Floor("values on TimePeriodType's custom path", r.Dist["custom-json"], tot, 0.002)
+	r.Floor("values with a re-expressed time period", r.Dist["with-re-expressed-period"], tot, 0.001)
+	// every shape of a time period must have been seen often, and not only as a bare value
+	minShape, nper := 1<<30, 0
+	for _, a := range "-arj" {
+		for _, b := range "-arj" {
+			n := r.Dist[fmt.Sprintf("period start=%c end=%c", a, b)]
+			nper += n
+			if n < minShape {
+				minShape = n
+			}
+		}
+	}
+	r.Info["time periods seen"] = nper
+	r.Info["rarest time-period shape seen"] = minShape
+	r.Floor("every time-period shape (16) at least 20 times", minShape, 20, 1.0)
+	r.Floor("time periods nested in payloads", r.Dist["period nested in a payload"], nper, 0.3)
 	r.Floor("types", len(names), 300, 1.0)
 	completed()
 }
